@@ -607,6 +607,8 @@ def fn_surface(case, ctx):
     V0 = np.array(V, dtype=float).reshape(-1, 3)
     flat = is_flat(V0, F)
     ctx.label("flat" if flat else "not-flat", "pre-queried" if case["pre"] else "not-pre-queried", f"nops={len(case['ops'])}")
+    if quads_with_diagonal_edge(F):
+        ctx.label("quad-whose-cut-diagonal-is-an-edge")
     has_border = bool(ref0.border_loops())
     ctx.nontrivial(has_border or any(len(f) != 3 for f in F) or len(case["ops"]) >= 2)
 
@@ -933,6 +935,26 @@ def check_cell_step(ctx, name, arg, S0, S1, what):
     return True
 
 
+def check_volume_corner_records(ctx, R, SR, what):
+    """corner containers of the result: every vertex of every face / cell in order; the four faces of every cell
+    (face i opposite vertex i). The owner column of cell_faces is not looked at (known defect of the constructor, C02)."""
+    try:
+        fc = (ints(R.face_corners._elem), ints(R.face_corners._adj))
+        cc = (ints(R.cell_corners._elem), ints(R.cell_corners._adj))
+        cf = ints(R.cell_faces._elem)
+    except Exception as e:
+        ctx.check(False, "result:corners", f"{what}: corner containers unreadable ({type(e).__name__})")
+        return
+    ctx.check(fc == ([v for f in SR.F for v in f], [i for i, f in enumerate(SR.F) for _ in f]), "result:corners",
+              f"{what}: face_corners are not 'every vertex of every face, face by face' ({len(fc[0])} records for {sum(map(len, SR.F))} face vertices)")
+    ctx.check(cc == ([v for c in SR.C for v in c], [i for i, c in enumerate(SR.C) for _ in c]), "result:corners",
+              f"{what}: cell_corners are not 'every vertex of every cell, cell by cell' ({len(cc[0])} records for {4 * len(SR.C)} cell vertices)")
+    good = len(cf) == 4 * len(SR.C) and all(0 <= x < len(SR.F) for x in cf)
+    if good:
+        good = all(key(SR.F[cf[4 * i + j]]) == key(c[:j] + c[j + 1:]) for i, c in enumerate(SR.C) for j in range(4))
+    ctx.check(good, "result:corners", f"{what}: cell_faces do not list, for every cell, the face opposite each of its vertices ({len(cf)} records for {len(SR.C)} cells)")
+
+
 @st.composite
 def volume_case(draw):
     t = draw(GT.tets(max_cells=24))
@@ -1028,6 +1050,7 @@ def fn_volume(case, ctx):
         return
     if not volume_invariants(ctx, V0, C, SR, what):
         return
+    check_volume_corner_records(ctx, R, SR, what)
     volume_sweep(R, len(SR.V), SR.C, case["sort"], case["sweep_seed"], ctx, what + " [result object]")
 
     def sweep(mm, nV, CC, sort_on, seed, c2, w):
@@ -1198,4 +1221,26 @@ def kf_input_object_half_updated(case, violation):
     return violation.sub_check in ("surface_edit", "volume_edit", "double_boundary") and violation.signature.startswith("input:")
 
 
-MATCHERS = {"kf_input_object_half_updated": kf_input_object_half_updated}
+def quads_with_diagonal_edge(F):
+    """quads (A,B,C,D) of a face list whose diagonal B-D (the one triangulate_face cuts along) already is an edge of the
+    mesh, or is the cut diagonal of another quad as well"""
+    ue = set(key(f[i], f[(i + 1) % len(f)]) for f in F for i in range(len(f)))
+    cuts = {}
+    for f in F:
+        if len(f) == 4:
+            cuts[key(f[1], f[3])] = cuts.get(key(f[1], f[3]), 0) + 1
+    return [list(f) for f in F if len(f) == 4 and (key(f[1], f[3]) in ue or cuts[key(f[1], f[3])] > 1)]
+
+
+def kf_quad_diagonal_already_an_edge(case, violation):
+    """triangulate_face always cuts a quad (A,B,C,D) along B-D. When B and D are already joined by an edge of another face,
+    or by the cut of another quad (coarse meshes: quads around a valence-2 vertex, a tetrahedron with two faces merged), the
+    result has an edge with more than two faces / two faces on the same vertices, which the data model cannot represent
+    (the other diagonal would have been fine). Narrow: the *input* face list contains such a quad and the symptom is the
+    validity of the state right after a triangulating step."""
+    return (violation.sub_check == "surface_edit" and violation.signature in ("step:valid", "decomposed:step:valid")
+            and bool(quads_with_diagonal_edge(case["F"])))
+
+
+MATCHERS = {"kf_input_object_half_updated": kf_input_object_half_updated,
+            "kf_quad_diagonal_already_an_edge": kf_quad_diagonal_already_an_edge}
